@@ -38,20 +38,21 @@ with nproto : Type :=
 with aprotos : Type :=
 | ANil | ACons (a : aproto) (r : aprotos)
 with aproto : Type :=
-| APlain (aname tok : N) (bad : bool)
+| APlain (aname tok : N) (bad : bool) (sbad : bool)   (* bad: leaf deserialization raises; sbad: re-serialization raises *)
 | AGraph (aname : N) (g : gproto)
 | AGraphs (aname : N) (gs : gprotos)
 with gprotos : Type :=
 | GNil | GCons (g : gproto) (r : gprotos).
 
 Record fproto := mkFP { fp_id : N; fp_tok : N; fp_ins : list name; fp_outs : list name;
-                        fp_vis : list vinfo; fp_nodes : nprotos }.
+                        fp_vis : list vinfo; fp_nodes : nprotos;
+                        fp_bad : bool (* a default attribute fails to deserialize *) }.
 Record mproto := mkMP { mp_tok : N (* ir_version, opsets, producer, doc, metadata *);
                         mp_graph : gproto; mp_funcs : list fproto }.
 
 (* ------------------------------------------------------------------ IR heap *)
 
-Inductive attr := AtPlain (tok : N) | AtGraph (g : nat) | AtGraphs (gs : list nat).
+Inductive attr := AtPlain (tok : N) (sbad : bool) | AtGraph (g : nat) | AtGraphs (gs : list nat).
 
 Record value := mkV {
   v_name : option name;
@@ -71,7 +72,7 @@ Record graph := mkG {
   g_inputs : list nat; g_outputs : list nat;
   g_inits : list (name * nat);       (* dict order *)
   g_nodes : list nat }.
-Record tensor := mkT { t_name : option name; t_tok : N }.
+Record tensor := mkT { t_name : option name; t_tok : N; t_pay : payload; t_bad_info : bool }.
 Record heap := mkH { hv : list value; hn : list node; hg : list graph; ht : list tensor }.
 Record func := mkF { f_id : N; f_tok : N; f_graph : nat }.
 Record model := mkM { m_tok : N; m_graph : nat; m_funcs : list func }.
@@ -108,8 +109,8 @@ Definition with_ngraph (g : option nat) (y : node) : node :=
 (* Value(name=...) *)
 Definition alloc_value (h : heap) (nm : option name) (c : option nat) (p : payload) : heap * nat :=
   (set_hv h (hv h ++ [mkV nm None [] None false false false c p]), length (hv h)).
-Definition alloc_tensor (h : heap) (nm : option name) (tok : N) : heap * nat :=
-  (mkH (hv h) (hn h) (hg h) (ht h ++ [mkT nm tok]), length (ht h)).
+Definition alloc_tensor (h : heap) (nm : option name) (tok : N) (pay : payload) (bad : bool) : heap * nat :=
+  (mkH (hv h) (hn h) (hg h) (ht h ++ [mkT nm tok pay bad]), length (ht h)).
 
 (* Python dict: assignment to an existing key keeps its position *)
 Fixpoint dict_set {A} (k : N) (a : A) (l : list (N * A)) : list (N * A) :=
@@ -275,7 +276,7 @@ Fixpoint alloc_tensors (h : heap) (ts : list tproto) : res (heap * list nat) :=
   | [] => Ok (h, [])
   | t :: r =>
     if tp_bad_ctor t then Raise ValueError
-    else let '(h1, c) := alloc_tensor h (Some (tp_name t)) (tp_tok t) in
+    else let '(h1, c) := alloc_tensor h (Some (tp_name t)) (tp_tok t) (tp_pay t) (tp_bad_info t) in
          match alloc_tensors h1 r with Ok (h2, cs) => Ok (h2, c :: cs) | Raise e => Raise e end
   end.
 Fixpoint deser_inits (h : heap) (tbl : table) (vis : list vinfo) (ts : list tproto) (cs : list nat)
@@ -454,7 +455,7 @@ with deser_attrs (al : aprotos) (scs : list table) (h : heap) {struct al} : res 
   end
 with deser_attr (a : aproto) (scs : list table) (h : heap) {struct a} : res (heap * (name * attr)) :=
   match a with
-  | APlain k tok bad => if bad then Raise ValueError else Ok (h, (k, AtPlain tok))
+  | APlain k tok bad sbad => if bad then Raise ValueError else Ok (h, (k, AtPlain tok sbad))
   | AGraph k g =>
     match deser_graph g scs h with
     | Raise e => Raise e
@@ -514,7 +515,7 @@ Definition deser_function (f : fproto) (h : heap) : res (heap * func) :=
       | Ok outvs =>
         match new_graph h3 0%N 0%N invs outvs [] nids with
         | Raise e => Raise e
-        | Ok (h4, gid) => Ok (h4, mkF (fp_id f) (fp_tok f) gid)
+        | Ok (h4, gid) => if fp_bad f then Raise ValueError else Ok (h4, mkF (fp_id f) (fp_tok f) gid)
         end
       end
     end
@@ -559,11 +560,17 @@ Definition deser_model (p : mproto) : res (heap * model) :=
 Definition falsy (k : option name) : bool := match k with None => true | Some k => N.eqb k 0 end.
 Definition should_vi (x : value) : bool := negb (N.eqb (v_info x) 0) && negb (falsy (v_name x)).
 
+Section Ser.
+(* leaf level: the payload a value's type/shape/doc/metadata has after serialize_value_into and back
+   (e.g. a shape without a type is not written).  Supplied per case by the harness; identity when absent. *)
+Variable np : list (N * N).
+Definition norm_pay (p : payload) : payload := match lookup p np with Some q => q | None => p end.
+
 (* serialize_value_into: value_info_proto.name = from_.name  (None -> TypeError) *)
 Definition ser_value (h : heap) (v : nat) : res vinfo :=
   match getv h v with
   | None => Raise AssertionError
-  | Some x => match v_name x with None => Raise TypeError | Some k => Ok (mkVI k (v_info x) false) end
+  | Some x => match v_name x with None => Raise TypeError | Some k => Ok (mkVI k (norm_pay (v_info x)) false) end
   end.
 Fixpoint ser_values (h : heap) (vs : list nat) : res (list vinfo) :=
   match vs with
@@ -616,7 +623,7 @@ Fixpoint out_vis (h : heap) (outs : list nat) : list vinfo :=
   | [] => []
   | v :: r => match getv h v with
               | Some x => if negb (v_out x) && should_vi x
-                          then mkVI (match v_name x with Some k => k | None => 0%N end) (v_info x) false :: out_vis h r
+                          then mkVI (match v_name x with Some k => k | None => 0%N end) (norm_pay (v_info x)) false :: out_vis h r
                           else out_vis h r
               | None => out_vis h r
               end
@@ -626,13 +633,13 @@ Fixpoint fn_out_vis (h : heap) (outs : list nat) : list vinfo :=
   | [] => []
   | v :: r => match getv h v with
               | Some x => if should_vi x
-                          then mkVI (match v_name x with Some k => k | None => 0%N end) (v_info x) false :: fn_out_vis h r
+                          then mkVI (match v_name x with Some k => k | None => 0%N end) (norm_pay (v_info x)) false :: fn_out_vis h r
                           else fn_out_vis h r
               | None => fn_out_vis h r
               end
   end.
 Definition set_tname (h : heap) (c : nat) (k : option name) : heap :=
-  mkH (hv h) (hn h) (hg h) (upd (ht h) c (fun t => mkT k (t_tok t))).
+  mkH (hv h) (hn h) (hg h) (upd (ht h) c (fun t => mkT k (t_tok t) (t_pay t) (t_bad_info t))).
 (* initializers: value_info (unless also an input), skip if no const_value, rename tensor, emit *)
 Fixpoint ser_inits (h : heap) (in_names : list (option name)) (l : list (name * nat))
   : res (heap * list tproto * list vinfo) :=
@@ -643,7 +650,7 @@ Fixpoint ser_inits (h : heap) (in_names : list (option name)) (l : list (name * 
     | None => Raise AssertionError
     | Some x =>
       let vi := if should_vi x && negb (existsb (fun k => option_eqb N.eqb k (v_name x)) in_names)
-                then [mkVI (match v_name x with Some k => k | None => 0%N end) (v_info x) false] else [] in
+                then [mkVI (match v_name x with Some k => k | None => 0%N end) (norm_pay (v_info x)) false] else [] in
       match v_const x with
       | None => match ser_inits h in_names r with
                 | Ok (h1, ts, vs) => Ok (h1, ts, vi ++ vs) | Raise e => Raise e end
@@ -652,7 +659,7 @@ Fixpoint ser_inits (h : heap) (in_names : list (option name)) (l : list (name * 
         | None => Raise AssertionError
         | Some t =>
           let h1 := set_tname h c (v_name x) in
-          let tp := mkTP (match v_name x with Some k => k | None => 0%N end) (t_tok t) 0%N false false in
+          let tp := mkTP (match v_name x with Some k => k | None => 0%N end) (t_tok t) (t_pay t) false (t_bad_info t) in
           match ser_inits h1 in_names r with
           | Ok (h2, ts, vs) => Ok (h2, tp :: ts, vi ++ vs) | Raise e => Raise e end
         end
@@ -662,10 +669,75 @@ Fixpoint ser_inits (h : heap) (in_names : list (option name)) (l : list (name * 
 
 Fixpoint gs_of_list (l : list gproto) : gprotos := match l with [] => GNil | g :: r => GCons g (gs_of_list r) end.
 
-Fixpoint ser_graph (fuel : nat) (h : heap) (g : nat) {struct fuel} : res (heap * gproto) :=
-  match fuel with
-  | O => Raise RuntimeError
-  | S fuel' =>
+Section SerBody.
+  (* serializer of nested graphs (one level less fuel) *)
+  Variable rec : heap -> nat -> res (heap * gproto).
+
+  Fixpoint ser_gs (h : heap) (l : list nat) : res (heap * list gproto) :=
+    match l with
+    | [] => Ok (h, [])
+    | sg :: t =>
+      match rec h sg with
+      | Raise e => Raise e
+      | Ok (h1, gp) => match ser_gs h1 t with Ok (h2, l) => Ok (h2, gp :: l) | Raise e => Raise e end
+      end
+    end.
+  Fixpoint ser_attrs (h : heap) (al : list (name * attr)) : res (heap * aprotos) :=
+    match al with
+    | [] => Ok (h, ANil)
+    | (k, AtPlain tok sbad) :: t =>
+      if sbad then Raise TypeError else
+      match ser_attrs h t with Ok (h1, l) => Ok (h1, ACons (APlain k tok false false) l) | Raise e => Raise e end
+    | (k, AtGraph sg) :: t =>
+      match rec h sg with
+      | Raise e => Raise e
+      | Ok (h1, gp) =>
+        match ser_attrs h1 t with Ok (h2, l) => Ok (h2, ACons (AGraph k gp) l) | Raise e => Raise e end
+      end
+    | (k, AtGraphs sgs) :: t =>
+      match ser_gs h sgs with
+      | Raise e => Raise e
+      | Ok (h1, gl) =>
+        match ser_attrs h1 t with Ok (h2, l) => Ok (h2, ACons (AGraphs k (gs_of_list gl)) l) | Raise e => Raise e end
+      end
+    end.
+  (* serialize_node_into *)
+  Definition ser_node (h : heap) (n : nat) : res (heap * nproto) :=
+    match getn h n with
+    | None => Raise AssertionError
+    | Some y =>
+      match ser_node_inputs h (n_inputs y) with
+      | Raise e => Raise e
+      | Ok ins =>
+        match ser_node_outputs h (trim_outputs h (n_outputs y)) with
+        | Raise e => Raise e
+        | Ok outs =>
+          match ser_attrs h (n_attrs y) with
+          | Raise e => Raise e
+          | Ok (h1, al) =>
+            Ok (h1, Np (match n_name y with Some k => k | None => 0%N end) (n_op y) (n_tok y) ins outs al)
+          end
+        end
+      end
+    end.
+  (* nodes of a graph (infn = false) or of a function (infn = true), with the value_info of their outputs *)
+  Fixpoint ser_nodes (infn : bool) (h : heap) (ns : list nat) : res (heap * nprotos * list vinfo) :=
+    match ns with
+    | [] => Ok (h, NNil, [])
+    | n :: r =>
+      match ser_node h n with
+      | Raise e => Raise e
+      | Ok (h1, np) =>
+        let outs := match getn h1 n with Some y => n_outputs y | None => [] end in
+        let ovis := if infn then fn_out_vis h1 outs else out_vis h1 outs in
+        match ser_nodes infn h1 r with
+        | Ok (h2, l, vs) => Ok (h2, NCons np l, ovis ++ vs)
+        | Raise e => Raise e
+        end
+      end
+    end.
+  (* serialize_graph_into *)
+  Definition ser_graph_body (h : heap) (g : nat) : res (heap * gproto) :=
     match getg h g with
     | None => Raise AssertionError
     | Some z =>
@@ -676,59 +748,7 @@ Fixpoint ser_graph (fuel : nat) (h : heap) (g : nat) {struct fuel} : res (heap *
         match ser_inits h in_names (g_inits z) with
         | Raise e => Raise e
         | Ok (h1, ts, ivis) =>
-          match (fix ser_nodes (h : heap) (ns : list nat) {struct ns} : res (heap * nprotos * list vinfo) :=
-                   match ns with
-                   | [] => Ok (h, NNil, [])
-                   | n :: r =>
-                     match getn h n with
-                     | None => Raise AssertionError
-                     | Some y =>
-                       match ser_node_inputs h (n_inputs y) with
-                       | Raise e => Raise e
-                       | Ok ins =>
-                         match ser_node_outputs h (trim_outputs h (n_outputs y)) with
-                         | Raise e => Raise e
-                         | Ok outs =>
-                           match (fix ser_attrs (h : heap) (al : list (name * attr)) {struct al} : res (heap * aprotos) :=
-                                    match al with
-                                    | [] => Ok (h, ANil)
-                                    | (k, AtPlain tok) :: t =>
-                                      match ser_attrs h t with Ok (h1, l) => Ok (h1, ACons (APlain k tok false) l) | Raise e => Raise e end
-                                    | (k, AtGraph sg) :: t =>
-                                      match ser_graph fuel' h sg with
-                                      | Raise e => Raise e
-                                      | Ok (h1, gp) =>
-                                        match ser_attrs h1 t with Ok (h2, l) => Ok (h2, ACons (AGraph k gp) l) | Raise e => Raise e end
-                                      end
-                                    | (k, AtGraphs sgs) :: t =>
-                                      match (fix ser_gs (h : heap) (l : list nat) {struct l} : res (heap * list gproto) :=
-                                               match l with
-                                               | [] => Ok (h, [])
-                                               | sg :: t =>
-                                                 match ser_graph fuel' h sg with
-                                                 | Raise e => Raise e
-                                                 | Ok (h1, gp) =>
-                                                   match ser_gs h1 t with Ok (h2, l) => Ok (h2, gp :: l) | Raise e => Raise e end
-                                                 end
-                                               end) h sgs with
-                                      | Raise e => Raise e
-                                      | Ok (h1, gl) =>
-                                        match ser_attrs h1 t with Ok (h2, l) => Ok (h2, ACons (AGraphs k (gs_of_list gl)) l) | Raise e => Raise e end
-                                      end
-                                    end) h (n_attrs y) with
-                           | Raise e => Raise e
-                           | Ok (h1, al) =>
-                             let np := Np (match n_name y with Some k => k | None => 0%N end) (n_op y) (n_tok y) ins outs al in
-                             let ovis := out_vis h1 (n_outputs y) in
-                             match ser_nodes h1 r with
-                             | Ok (h2, l, vs) => Ok (h2, NCons np l, ovis ++ vs)
-                             | Raise e => Raise e
-                             end
-                           end
-                         end
-                       end
-                     end
-                   end) h1 (g_nodes z) with
+          match ser_nodes false h1 (g_nodes z) with
           | Raise e => Raise e
           | Ok (h2, nps, nvis) =>
             match ser_values h2 (g_outputs z) with
@@ -738,7 +758,64 @@ Fixpoint ser_graph (fuel : nat) (h : heap) (g : nat) {struct fuel} : res (heap *
           end
         end
       end
-    end
+    end.
+End SerBody.
+
+Fixpoint ser_graph (fuel : nat) (h : heap) (g : nat) {struct fuel} : res (heap * gproto) :=
+  match fuel with
+  | O => Raise RuntimeError
+  | S f => ser_graph_body (ser_graph f) h g
   end.
 
 Definition ser_fuel (h : heap) : nat := S (length (hg h)).
+
+(* serialize_function_into (create_value_info = True, i.e. IR version >= 10) *)
+Fixpoint ser_names (h : heap) (vs : list nat) : res (list name) :=
+  match vs with
+  | [] => Ok []
+  | v :: r =>
+    match getv h v with
+    | None => Raise AssertionError
+    | Some x => match v_name x with
+                | None => Raise TypeError
+                | Some k => match ser_names h r with Ok l => Ok (k :: l) | Raise e => Raise e end
+                end
+    end
+  end.
+Definition ser_function (h : heap) (f : func) : res (heap * fproto) :=
+  match getg h (f_graph f) with
+  | None => Raise AssertionError
+  | Some z =>
+    match ser_names h (g_inputs z) with
+    | Raise e => Raise e
+    | Ok ins =>
+      match ser_names h (g_outputs z) with
+      | Raise e => Raise e
+      | Ok outs =>
+        match ser_nodes (ser_graph (ser_fuel h)) true h (g_nodes z) with
+        | Raise e => Raise e
+        | Ok (h1, nps, nvis) =>
+          Ok (h1, mkFP (f_id f) (f_tok f) ins outs (fn_out_vis h (g_inputs z) ++ nvis) nps false)
+        end
+      end
+    end
+  end.
+Fixpoint ser_functions (h : heap) (fs : list func) : res (heap * list fproto) :=
+  match fs with
+  | [] => Ok (h, [])
+  | f :: r =>
+    match ser_function h f with
+    | Raise e => Raise e
+    | Ok (h1, fp) => match ser_functions h1 r with Ok (h2, l) => Ok (h2, fp :: l) | Raise e => Raise e end
+    end
+  end.
+Definition ser_model (h : heap) (m : model) : res (heap * mproto) :=
+  match ser_graph (ser_fuel h) h (m_graph m) with
+  | Raise e => Raise e
+  | Ok (h1, gp) =>
+    match ser_functions h1 (m_funcs m) with
+    | Raise e => Raise e
+    | Ok (h2, fps) => Ok (h2, mkMP (m_tok m) gp fps)
+    end
+  end.
+End Ser.
